@@ -397,7 +397,17 @@ def predict(cfg, rng, q=None, thorough=False, sub=None, stats=None, other=None):
         # 1. defaults except ntheta (odd and even), default ntorMax = 14: NTOR is capped when nphi > 29
         ntheta = int(r2.integers(5, 15))
         f1 = os.path.join(tmp, 'input.a')
+        # a plotting call first (C17: read-only; it must not change what a later export writes either -- numpy print options, rcParams, scratch attributes ...)
+        po_ = np.get_printoptions()
+        try:
+            import matplotlib.pyplot as plt_
+            with np.errstate(all='ignore'):
+                q.plot_axis(frenet=False, show=False)
+            plt_.close('all')
+        except Exception:
+            pass
         call(q, f1, r, ntheta=ntheta)
+        np.set_printoptions(**po_)          # (whatever the call above did to the process is undone for the rest of the harness)
         m, c1 = check_file(q, cfg, f1, r, ntheta, None, 14, bad, stats)
         n += m
         # 2. overrides: mpol / ntor not above the covering ranges, other run-time parameters, ntorMax
